@@ -10,6 +10,20 @@ BASE_NOTE = ("Trusted base: CPython's ast module; the evaluator/normaliser in fs
 
 # id -> (technique, level text, design ref) for the properties whose check is built and armed
 CLAIMS = {
+    "C08": ("sibling-predicate canonicalisation (boolean normal forms with integer thresholds, membership normal form) + guard domination, over the ast",
+            "Static necessary-condition analysis: the four hand-written copies of the internal/external predicate are reduced to canonical "
+            "formulas over |cells(v)|>=2 / |cells(end)|>=3 and each must equal the statement's formula, so the copies cannot drift apart for any "
+            "mesh; duplicate suppression in both directions is a guard-domination obligation on every growth site of the interface list; "
+            "junction-degree thresholds and the tension-table filter are compared too. Does not decide correctness of the path-splitting algorithm.", "3/C08"),
+    "C10": ("effect analysis over the call graph (who-may-write, typestate of build state), KIND of per-frame stores, index-chain alignment on evaluator terms",
+            "Static necessary-condition analysis: who-may-write tables for tension/pressure/result stores, the transitive write set of "
+            "ForceMatrix.solve and GeneralMatrix.solve_system contains no build state, per-frame stores are only element-stored under the frame "
+            "key, the solution position -> interface -> mesh edges -> reported dictionary chain uses one index, and internal interfaces are reset "
+            "before write-back. These bound every call history, which no finite test sequence can; float equality across histories is not decided.", "3/C10"),
+    "C16": ("sibling-predicate agreement, formula/guard matching on evaluator terms, NONE rule (mutator result bound), RANGE of defaults against arccos",
+            "Static necessary-condition analysis: the three copies of the exclusion predicate equal 'both end junctions flagged', the flag is "
+            "max over all pairs of arccos(dot) >= limit with tangents from the configured fit, the -1 re-insertion keeps output index and input "
+            "pointer aligned, no None-returning mutator result is bound on the solve path, and every default limit is unattainable.", "3/C16"),
     "C20": ("formula identity by algebraic value numbering (cyclic-sum normal form) + homogeneity-degree typing + finite-set normal form, over the ast",
             "Static necessary-condition analysis: Cell.get_area is proved identical to the shoelace formula as a cyclic-sum normal form "
             "(sign convention, reversal, shift, translation and degree-2 scaling are algebraic corollaries), perimeter summand, "
